@@ -130,8 +130,10 @@ def _parse_atom_attributes(
         RAD: [int(i.split("=")[1]) for i in line if "RAD" in i],
     }
     for key, val in optional_attrs.items():
-        if val:
-            atom_attrs[key] = val.pop()
+        # Explicitly written default values (CHG=0, RAD=0, MASS=0) mean the
+        # same as omitting the property.
+        if val and (value := val.pop()) != 0:
+            atom_attrs[key] = value
 
     return atom_attrs, False
 
